@@ -42,7 +42,7 @@ def place(demo):
 
 def verify(sid):
     d = os.path.join(SEEDED, sid)
-    x = sid[-1]
+    x = re.search(r"^func TestDemo(\w+)\(", open(f"{d}/demo_test.go.txt").read(), re.M).group(1)
     wt = tempfile.mkdtemp(prefix="seedwt-", dir="/tmp")
     os.rmdir(wt)
     rc, out = sh(f"git -C /repo worktree add -q {wt} HEAD")
